@@ -429,6 +429,9 @@ type StreamScenario struct {
 	SetPosBefore map[int]Pos
 	// MapperTables overrides what the table mapper knows (default: every table announced in the log)
 	MapperTables map[string]*Table
+	// Log2 / Start2: a second history, served to the attempts whose plan carries it (AttemptPlan.Log), from Start2 on
+	Log2   *Log
+	Start2 Pos
 	// MapperAfter[k]: what the table mapper knows from the moment the handler has been given the k-th transaction of the
 	// scenario (0-based): the application has learned of a schema change
 	MapperAfter map[int]map[string]*Table
@@ -522,9 +525,9 @@ func evJ(e *Ev, withBytes bool) M {
 	return m
 }
 
-func (sc *StreamScenario) J(withBytes bool) M {
+func filesJ(l *Log, withBytes bool) []M {
 	files := []M{}
-	for _, f := range sc.Log.Files {
+	for _, f := range l.Files {
 		units := []M{}
 		for _, u := range f.Units {
 			evs := []M{}
@@ -535,6 +538,11 @@ func (sc *StreamScenario) J(withBytes bool) M {
 		}
 		files = append(files, M{"name": B(f.Name), "base": u32s(f.Base), "first": u32s(f.Base + 4), "units": units, "prev": f.Prev != nil})
 	}
+	return files
+}
+
+func (sc *StreamScenario) J(withBytes bool) M {
+	files := filesJ(sc.Log, withBytes)
 	atts := []M{}
 	for _, a := range sc.Attempts {
 		atts = append(atts, a.J())
@@ -546,6 +554,11 @@ func (sc *StreamScenario) J(withBytes bool) M {
 		"files": files, "attempts": atts, "resume": sc.Resume, "rejectAfter": sc.RejectAfterP1 - 1}
 	if sc.Model != nil {
 		m["model"] = sc.Model
+	}
+	if sc.Log2 != nil {
+		// a second history (another master, or the same one after its settings changed): served to the attempts whose plan names it
+		m["files2"] = filesJ(sc.Log2, withBytes)
+		m["start2"] = M{"file": B(sc.Start2.File), "off": u32s(sc.Start2.Off)}
 	}
 	return m
 }
@@ -639,6 +652,9 @@ func (rs *runState) runAttempt(att int, a AttemptPlan, dsnOverride string) {
 		alog = a.Log
 	}
 	rs.mapper.mu.Lock()
+	if a.Log != nil && sc.Log2 == a.Log {
+		rs.mapper.tables = a.Log.Tables() // the other master's schema
+	}
 	rs.mapper.fault = a.MapperFault
 	rs.mapper.att = att
 	rs.mapper.cancel = nil
